@@ -266,7 +266,9 @@ def s1_group(src, static_member):
     slow_sync = [0.0, 0.25][src.choice("sync_group_reply_takes", 2)]  # stop() may arrive while SyncGroup is unanswered
     # one coordinator reply that a rebalance in progress legitimately produces, given to A's first such request
     # ... SyncGroup of the first join / SyncGroup of the re-join caused by B / first Heartbeat (JoinGroup never gets 27)
-    gfault = [None, (14, 27, 1), (14, 27, 2), (12, 27, 1)][src.choice("rebalance_in_progress_reply_to", 4)]
+    # ... or, from A's second JoinGroup on (the re-join B causes), GROUP_AUTHORIZATION_FAILED every time: a
+    # non-retriable error the coordination task parks for the application, which stops polling before stop()
+    gfault = [None, (14, 27, 1), (14, 27, 2), (12, 27, 1), (11, 30, 2, "persist")][src.choice("rebalance_in_progress_reply_to", 4 if static_member else 5)]
     cfg = {"member": {"auto_commit": autocommit, "auto_commit_interval_ms": 150, "assignors": ["roundrobin"],
                       "group_instance_id": "static-A" if static_member else None},
            "versions": {11: (0, 5), 14: (0, 3)} if static_member else None}
@@ -280,7 +282,7 @@ def s1_group(src, static_member):
         def fault_fn(cluster, node, req, entry):
             if gfault and entry["client"] == "A" and req.API_KEY == gfault[0]:
                 used.append(1)
-                if len(used) == gfault[2]:
+                if len(used) == gfault[2] or (len(gfault) > 3 and len(used) > gfault[2]):
                     return ("error", gfault[1])
             return None
         run.cluster.fault_fn = fault_fn
